@@ -11,15 +11,16 @@ Inductive step :=
 
 Inductive c16_case :=
 | C16Hist (base : N) (ns : bytes) (steps : list step)
-          (watch : list (Z * list wevent))                          (* (header revision, events) per message *)
+          (watch : option (list (Z * list wevent)))                 (* a prefix watch opened before the history: (header revision, events) per message; None = no watch was opened *)
           (watch2 : option (Z * list (Z * list wevent)))            (* a second watch from a start revision *)
 (* a prefix watch resumed n events behind (one create and n-1 guarded updates of one key, all inside the event cache):
    how many events the stream delivered, and whether they were exactly the writes, in revision order.  The model's
    watch has no channel capacities: shim_watch returns every recorded event from the start revision (C16_watch_prefix) *)
 | C16Backlog (n delivered : N) (ordered : bool)
 (* racing guarded writes on one key through RPCServer.Txn over the Badger engine: [clients] concurrent create-if-absent
-   transactions, then [clients] guarded updates carrying the same expected revision, per round; the largest number of
-   Succeeded=true answers seen in a round.  etcd linearises them: exactly one per compared revision *)
+   transactions, then [clients] guarded updates carrying the same expected revision, per round; the numbers of
+   Succeeded=true answers of the first round that did not have exactly one winner of each race (1 and 1 when every round
+   had).  etcd linearises them: exactly one per compared revision *)
 | C16Race (clients rounds : N) (max_create max_update : N).
 
 (* ------------------------------------------------------------------ equality on observations *)
@@ -89,8 +90,8 @@ Definition c16_check (c : c16_case) : bool :=
       let '(ok, st) := check_steps ns (b_init base) steps in
       ok
       && match w with
-         | [] => true                      (* no watch was opened *)
-         | _ => list_eqb wevent_eqb (batches_events w) (shim_watch st ns 0)
+         | None => true                    (* no watch was opened *)
+         | Some bs => list_eqb wevent_eqb (batches_events bs) (shim_watch st ns 0)
          end
       && match w2 with
          | None => true
@@ -234,6 +235,7 @@ Definition F_recogniser : N := 4%N.
 Definition F_compact : N := 5%N.
 Definition F_reserved : N := 6%N.
 Definition F_partition_magic : N := 7%N.
+Definition F_count_revision : N := 9%N.
 
 Record ostate := mkO {
   o_e : estate;
@@ -328,13 +330,19 @@ Definition prange_eqb (a b : option (list pkv * Z * bool)) : bool :=
   | _, _ => false
   end.
 
+(* a count carrying a past revision (F9: the Count path ignores the revision and counts the latest store) *)
+Definition count_at_rev (r : range_req) : bool :=
+  r_count_only r && (0 <? r_rev r) && negb (beqb (r_end r) []) && negb (r_rev r =? partition_magic).
+
 Definition classify_range (o : ostate) (r : range_req) (obs eresp : range_resp) : N :=
   if o_reserved o then F_reserved
   else if (r_rev r =? partition_magic) && negb (beqb (r_end r) []) then F_partition_magic
   else
     match obs, eresp with
     | ROk _ kvs c m, ROk _ kvs' c' m' =>
-        if (0 <? r_limit r) && list_eqb pkv_eqb (map pk kvs) (map pk kvs') && Bool.eqb m m'
+        if count_at_rev r then
+          (match kvs with [] => if c =? lenZ (e_range (e_cur (o_e o)) (r_key r) (r_end r)) then F_count_revision else 0%N | _ => 0%N end)
+        else if (0 <? r_limit r) && list_eqb pkv_eqb (map pk kvs) (map pk kvs') && Bool.eqb m m'
            && (c =? r_limit r + 1) && (r_limit r + 1 <? c')
         then F_count_limit else 0%N
     | _, _ => 0%N
@@ -346,7 +354,8 @@ Definition oracle_range (o : ostate) (r : range_req) (obs : range_resp) : ostate
   let se := e_tick (o_e o) seen in
   let o' := mkO se seen (o_reserved o) (o_codes o) (o_stop o) in
   if prange_eqb (proj_range obs) (proj_range eresp) then o'
-  else if negb (read_supported (o_seen o) r) && negb ((r_rev r =? partition_magic) && negb (beqb (r_end r) [])) then
+  else if negb (read_supported (o_seen o) r) && negb ((r_rev r =? partition_magic) && negb (beqb (r_end r) []))
+          && negb (count_at_rev r && (r_rev r <=? o_seen o)) then
     (* outside the supported reads: an error is an acceptable answer, data is not *)
     match obs with
     | RErr => o'
@@ -388,10 +397,148 @@ Definition summarise (codes : list N) : option N :=
 Definition c16_oracle (c : c16_case) : option N :=
   match c with
   | C16Backlog n delivered ordered => ok_if ((delivered =? n)%N && ordered)
-  | C16Race _ _ mc mu => ok_if ((mc <=? 1)%N && (mu <=? 1)%N)
+  | C16Race _ _ mc mu => ok_if ((mc =? 1)%N && (mu =? 1)%N)
   | C16Hist base ns steps w w2 =>
       let o := oracle_steps ns (mkO (e_init (Z.of_N base)) (Z.of_N base) false [] false) steps in
       summarise (o_codes o
-                 ++ match w with [] => [] | _ => oracle_watch o ns 0 w end
+                 ++ match w with None => [] | Some bs => oracle_watch o ns 0 bs end
                  ++ match w2 with None => [] | Some (start, bs) => oracle_watch o ns start bs end)
   end.
+
+(* ------------------------------------------------------------------ validity: the cases the oracle's soundness theorem covers *)
+
+(* A history is valid when every request is in the scope of C16_supported as evaluated on the shim model's own run: the
+   four shapes with an expected revision between zero and the current one (a guarded delete: above zero; an unguarded
+   delete: of a live key), no reserved value, well-formed non-empty keys; point and range reads at a revision from 0 to
+   the current one (not 1888 with a range end, not more than limit+1 keys under a limit), counts at the latest revision;
+   revisions below 2^63. *)
+Definition z63 : Z := 9223372036854775808.
+Definition boundedb (st : bstate) : bool := Z.of_N (b_rev st) + 1 <? z63.
+Definition keyb (k : bytes) : bool := negb (beqb k []) && wf_bytesb k.
+
+Definition txn_validb (st : bstate) (t : txn_req) : bool :=
+  negb (txn_has_reserved t)
+  && match canonical t with
+     | Some (ShCreate k _) => keyb k
+     | Some (ShUpdate k _ e) => keyb k && (0 <=? e) && (e <=? Z.of_N (b_rev st))
+     | Some (ShDelete k e) => keyb k && (0 <? e) && (e <=? Z.of_N (b_rev st))
+     | Some (ShDeleteU k) => keyb k && match b_get (b_kv st) k 0 with GFound _ _ => true | GNotFound => false end
+     | None => false
+     end.
+
+Definition read_rev (st : bstate) (z : Z) : N := if (u64_of_Z z =? 0)%N then b_rev st else u64_of_Z z.
+
+Definition read_validb (st : bstate) (r : range_req) : bool :=
+  negb (r_keys_only r) && negb (beqb (r_key r) []) && (0 <=? r_rev r) && (r_rev r <=? Z.of_N (b_rev st))
+  && match r_end r with
+     | [] => negb (r_count_only r)
+     | e => negb (beqb e [0%N])
+            && if r_count_only r
+               then (r_rev r =? 0) && (r_limit r =? 0) && (lenZ (b_scan (b_kv st) (r_key r) e (b_rev st)) <? z63)
+               else bltb (r_key r) e && negb (r_rev r =? partition_magic) && (r_limit r + 1 <? z63)
+                    && ((r_limit r <=? 0) || (lenZ (b_scan (b_kv st) (r_key r) e (read_rev st (r_rev r))) <=? r_limit r + 1))
+     end.
+
+Fixpoint steps_validb (st : bstate) (steps : list step) : bool :=
+  match steps with
+  | [] => boundedb st
+  | STxn t _ _ :: rest => boundedb st && txn_validb st t && steps_validb (fst (shim_txn st t)) rest
+  | STxnNL t _ :: rest => boundedb st && txn_validb st t && steps_validb (fst (shim_txn st t)) rest
+  | SRange r _ :: rest => boundedb st && read_validb st r && steps_validb st rest
+  end.
+
+Definition ns_validb (ns : bytes) : bool :=
+  keyb ns && is_some (prefix_end_opt ns) && bltb ns (prefix_end ns)
+  && negb (beqb (prefix_end ns) []) && negb (beqb (prefix_end ns) [0%N]).
+
+(* a transaction the shim rejects with nothing stored: not one of the shapes, or a shape with an expected revision outside
+   [0, current]; no reserved value.  The oracle accepts a rejection when the listing is unchanged. *)
+Definition rej_validb (st : bstate) (t : txn_req) : bool :=
+  negb (txn_has_reserved t)
+  && match snd (shim_txn st t) with TErr => true | _ => false end
+  && match canonical t with
+     | None => true
+     | Some sh => (shape_exp sh <? 0) || (Z.of_N (b_rev st) <? shape_exp sh)
+     end.
+
+(* a valid prefix, then one rejected transaction (with its listing) that ends the history *)
+Fixpoint steps_validb_rej (st : bstate) (steps : list step) : bool :=
+  match steps with
+  | [] => false
+  | STxn t _ _ :: rest =>
+      match rest with
+      | [] => boundedb st && boundedb (fst (shim_txn st t)) && rej_validb st t
+      | _ :: _ => boundedb st && txn_validb st t && steps_validb_rej (fst (shim_txn st t)) rest
+      end
+  | STxnNL t _ :: rest => boundedb st && txn_validb st t && steps_validb_rej (fst (shim_txn st t)) rest
+  | SRange r _ :: rest => boundedb st && read_validb st r && steps_validb_rej st rest
+  end.
+
+(* a valid prefix, then one arbitrary structurally valid transaction (with its listing) that ends the history: whatever
+   it is — one of the shapes in or out of scope, a request a recogniser takes for one, the compaction transaction, a
+   reserved value, something no recogniser accepts — the oracle's verdict is "agrees" or the code of a listed finding *)
+Definition fields_okb (t : txn_req) : bool :=
+  match canonical t with
+  | Some (ShUpdate _ _ e) | Some (ShDelete _ e) => (- z63 <=? e) && (e <? z63)
+  | _ => true
+  end.
+Definition fin_validb (t : txn_req) : bool := txn_wf t && fields_okb t.
+
+Fixpoint steps_validb_fin (st : bstate) (steps : list step) : bool :=
+  match steps with
+  | [] => false
+  | STxn t _ _ :: rest =>
+      match rest with
+      | [] => boundedb st && boundedb (fst (shim_txn st t)) && fin_validb t
+      | _ :: _ => boundedb st && txn_validb st t && steps_validb_fin (fst (shim_txn st t)) rest
+      end
+  | STxnNL t _ :: rest => boundedb st && txn_validb st t && steps_validb_fin (fst (shim_txn st t)) rest
+  | SRange r _ :: rest => boundedb st && read_validb st r && steps_validb_fin st rest
+  end.
+
+(* full strength: every request in scope, or a valid prefix closed by a rejection *)
+Definition c16_strongb (c : c16_case) : bool :=
+  match c with
+  | C16Hist base ns steps w w2 =>
+      ns_validb ns
+      && ((steps_validb (b_init base) steps
+           && match w2 with Some (start, _) => (0 <=? start) && (start <? z63) | None => true end)
+          || (steps_validb_rej (b_init base) steps
+              && match w with None => true | _ => false end && match w2 with None => true | _ => false end))
+  | _ => true
+  end.
+
+(* valid: full strength, or a valid prefix closed by one arbitrary structurally valid transaction *)
+Definition c16_validb (c : c16_case) : bool :=
+  c16_strongb c
+  || match c with
+     | C16Hist base ns steps w w2 =>
+         ns_validb ns && steps_validb_fin (b_init base) steps
+         && match w with None => true | _ => false end && match w2 with None => true | _ => false end
+     | _ => false
+     end.
+
+(* the codes of the findings a single closing transaction can show *)
+Definition listed_txn_codes : list N := [F_unguarded_missing; F_guarded_zero; F_recogniser; F_compact; F_reserved].
+
+(* the shim sends one response per batch whose header revision is the mod revision of its last event *)
+Definition c16_headersb (c : c16_case) : bool :=
+  match c with
+  | C16Hist _ _ _ w w2 =>
+      match w with Some bs => forallb header_ok bs | None => true end
+      && match w2 with Some (_, bs) => forallb header_ok bs | None => true end
+  | _ => true
+  end.
+
+(* what the driver emits: the case with its claim of validity.  A claimed case that is not valid fails the check, so the
+   driver's count of unclaimed cases (stats extra.invalid_cases) bounds the cases outside the soundness theorem. *)
+Inductive c16_vcase := V (claimed : bool) (c : c16_case).
+Definition c16_checkv (v : c16_vcase) : bool :=
+  match v with V claimed c => (if claimed then c16_validb c && c16_headersb c else true) && c16_check c end.
+Definition c16_oraclev (v : c16_vcase) : option N := match v with V _ c => c16_oracle c end.
+
+(* the shim's sender (backendshim.go Watch loop): a batch of events goes out as one message whose header revision is the
+   mod revision of its last event; how the events are cut into batches depends on timing, any cut may occur *)
+Definition send_batch (b : list wevent) : Z * list wevent :=
+  (match rev b with e :: _ => k_mod (ev_kv e) | [] => 0 end, b).
+Definition send_batches (cut : list (list wevent)) : list (Z * list wevent) := map send_batch cut.
